@@ -274,8 +274,14 @@ def shrink(inp, known):
 
 
 def _found(inp, known, how):
+    """Confirm (re-execute) and shrink a failing input; None when the alarm does not reproduce."""
+    _, _, alarm, _ = L.rerun_input(inp, known)
+    if not alarm:
+        return None
     inp = shrink(inp, known)
     line, real, alarm, _ = L.rerun_input(inp, known)
+    if not alarm:
+        return None
     return {"input": inp, "driver_call": line, "observed_on_real_code": real, "oracle": alarm, "found_by": how}
 
 
@@ -294,7 +300,9 @@ def search(ctx, disagreements, proof_info):
         except Exception:
             continue
         if alarm:
-            return _found(inp, known, "replay of a recorded disagreement with oracles armed")
+            f = _found(inp, known, "replay of a recorded disagreement with oracles armed")
+            if f:
+                return f
     # 2. fresh oracle-armed histories
     budget = 60 if ctx.tier == "quick" else 600
     t0 = time.time()
@@ -306,8 +314,10 @@ def search(ctx, disagreements, proof_info):
         for recs in pool.imap_unordered(L.work_chunk, tasks, chunksize=1):
             for r in recs:
                 if r["alarm"]:
-                    pool.terminate()
-                    return _found(r["input"], known, "oracle-armed random histories")
+                    f = _found(r["input"], known, "oracle-armed random histories")
+                    if f:
+                        pool.terminate()
+                        return f
             if time.time() - t0 > budget:
                 pool.terminate()
                 break
